@@ -88,7 +88,7 @@ CONSTANTS Mode,         \* "tree" | "randtree" | "gwalk" | "walk" | "deep" | "ph
           LeafSet,      \* "bool" | "rich" | "rich3"
           Depth,        \* depth bound of source trees
           ParenStyles,  \* subset of {"min", "full", "red"}
-          SpellNames,   \* subset of {"s1", "s2", "s3", "s4"} (pipe: the spacing / case styles of the tail)
+          SpellNames,   \* subset of {"s1", "s2", "s3", "s4"} (pipe: subset of PStyleNames, the spacing / case styles of the tail)
           EmitTrees,    \* TRUE: emit one sem case per (tree, paren, spell)
           Alpha,        \* walk: "A" | "B" | "S" | "U" | "P";  phrase: "P" | "Q";  gwalk, pipe: ignored
           Contexts,     \* phrase: subset of CtxNames;  pipe: subset of QuoteRots
@@ -667,18 +667,29 @@ SeqQLPipes(ts) ==
        ELSE IF ~PEnd(ts, r.pos) THEN [out |-> "panic", pipes |-> <<>>]
        ELSE [out |-> "ok", pipes |-> r.v]
 
-\* ---- how a tail is written.  Spacing: s1 a space in front of every token, s2 none, s3 / s4 in front of every second
-\* one; a tail that does not begin with a bar is set off from the filter expression by a space (otherwise its first
-\* token would be read into the value of the last filter)
+\* ---- how a tail is written.  Spacing: s1 a space in front of every token; s2 only between two tokens that can be
+\* parts of a name (the least spacing under which every token stays a name of its own); s3 / s4 in front of every
+\* second token; s5 none (words run together, names are glued).  A tail that does not begin with a bar is set off from
+\* the filter expression by a space (otherwise its first token would be read into the value of the last filter).
+\* The filter expression is spelled in the style of the same name (s5: as s3).
+PStyleNames == <<"s1", "s2", "s3", "s4", "s5">>
+NameClasses == {"word", "join", "quoted"}
+PStyleIdx(sn) == CHOOSE i \in DOMAIN PStyleNames : PStyleNames[i] = sn
+PSpell(sn) == SpellStyle(IF sn = "s5" THEN "s3" ELSE sn)
 PSpacing(names, sn) ==
-  [i \in DOMAIN names |-> IF i = 1 /\ names[1] # "|" THEN TRUE
-                          ELSE CASE sn = "s1" -> TRUE [] sn = "s2" -> FALSE [] sn = "s3" -> i % 2 = 1 [] sn = "s4" -> i % 2 = 0]
+  [i \in DOMAIN names |->
+     IF i = 1 THEN (names[1] # "|" \/ sn \in {"s1", "s3"})
+     ELSE CASE sn = "s1" -> TRUE
+            [] sn = "s2" -> PTok(names[i - 1], FALSE).c \in NameClasses /\ PTok(names[i], FALSE).c \in NameClasses
+            [] sn = "s3" -> i % 2 = 1
+            [] sn = "s4" -> i % 2 = 0
+            [] sn = "s5" -> FALSE]
 \* the quote kind rotates with the position; QuoteRots = where the rotation starts ("qrot": with the tail itself)
 QuoteKinds == <<"<DQ>", "<SQ>", "<BQ>">>
 QuoteRots == {"q0", "q1", "q2", "qrot"}
 RECURSIVE SumPIdx(_)
 SumPIdx(names) == IF names = <<>> THEN 0 ELSE PTokIdx(names[1]) + SumPIdx(Tail(names))
-RotOff(r, names, sn) == CASE r = "q0" -> 0 [] r = "q1" -> 1 [] r = "q2" -> 2 [] r = "qrot" -> SumPIdx(names) + SpellIdx(sn)
+RotOff(r, names, sn) == CASE r = "q0" -> 0 [] r = "q1" -> 1 [] r = "q2" -> 2 [] r = "qrot" -> SumPIdx(names) + PStyleIdx(sn)
 QuoteAt(i, off) == QuoteKinds[((i + off) % 3) + 1]
 RECURSIVE PTailPieces(_, _, _, _, _)
 PTailPieces(names, spc, up, off, i) ==
@@ -702,10 +713,10 @@ PipeFilters == << [x |-> StarLeaf, ps |-> "min"],
 \* reference and the truth table of the filter expression.  The filter, the declaration and (qrot) the quote kinds
 \* rotate with the tail and the style
 PipeCase(names, sn, r) ==
-  LET sp == SpellStyle(sn)
+  LET sp == PSpell(sn)
       spc == PSpacing(names, sn)
       ref == RefPipes(Lex(names, spc, sp.up))
-      k == SumPIdx(names) + SpellIdx(sn) + Len(names)
+      k == SumPIdx(names) + PStyleIdx(sn) + Len(names)
       F == PipeFilters[(k % Len(PipeFilters)) + 1]
       s == Render(F.x, F.ps)
       atoms == SetToSeq(AtomsOfSeq(s)) IN
@@ -890,7 +901,7 @@ PhraseContextsKeepMeaning ==
 \* (vi) every tail in every spacing: the token-cursor parsers of the pipe part end in the outcome of the reference
 \* grammar with its field list - in particular never in the panic of ParseSeqQL
 PipesEqualReference ==
-  Mode = "pipe" => \A sn \in SpellNames : LET ts == Lex(pre, PSpacing(pre, sn), SpellStyle(sn).up) IN
+  Mode = "pipe" => \A sn \in SpellNames : LET ts == Lex(pre, PSpacing(pre, sn), PSpell(sn).up) IN
                                             SeqQLPipes(ts) = RefPipes(ts)
 
 \* ======================================================================
